@@ -12,6 +12,16 @@ CLAIMED = {
    note="Trusted: go/ssa front end, gcv VC generator, SMT solvers, math/bits axioms, pinned moduli. Assembly bodies under default tags are assumed contracts (listed in evidence). Inverse/Exp/Sqrt/Legendre/BatchInvert/vector ops not yet under contract (listed under not_covered).",
    technique="contract-based deductive verification: weakest-precondition style symbolic execution over go/ssa with //@ contracts, cut points with ghost quotients, SMT (z3 5.1, z3 4.8.12, cvc5 1.0)",
    design="§5 C01"),
+ "C08": dict(
+   text="Deductive proof that the byte-order codecs (BigEndian/LittleEndian Element and PutElement, Bytes, SetBytesCanonical), Montgomery conversions (toMont/fromMont/Bits), integer setters (SetUint64/SetInt64/NewElement), Uint64/IsUint64/FitsOnOneWord, Cmp and LexicographicallyLargest of all 23 field packages meet contracts over the regular value reg(v); decoders accept exactly encodings below q; round-trip laws are lemma functions verified modularly from the encoder and decoder contracts.",
+   note="Trusted: as C01 plus encoding/binary axioms and the definition of reg (existence from gcd(R,q)=1, q odd checked). Not under contract: SetBytes/SetBigInt/BigInt/Text/SetString/JSON (math/big, strconv) and the vector readers/writers.",
+   technique="contract-based deductive verification (go/ssa symbolic execution, //@ contracts, verif-tagged lemma functions, SMT)",
+   design="§5 C08"),
+ "C19": dict(
+   text="Deductive proof per alias partition: every field-element function under contract with two or more pointer operands (Add, Sub, Double, Neg, Select, Mul, Square, _mulGeneric, Set, Equal, NotEqual, Cmp, ...) is verified once for every set partition of its pointer operands with exact points-to, against postconditions over old() values and a frame clause that forbids writes to non-destination operands.",
+   note="Covers the prime-field layer of all 23 packages (portable Go bodies). Extension-field, point, polynomial and vector methods are not yet under contract (not_covered); assembly leaf methods are outside (C09).",
+   technique="contract-based deductive verification with alias-partition enumeration and frame obligations",
+   design="§5 C19"),
 }
 
 NA = {
